@@ -1,0 +1,11 @@
+//go:build verif
+// +build verif
+
+package buffer
+
+// VerifState exposes the hidden state of a Buffer (read-only; the returned
+// slice is a copy). Only compiled with the "verif" build tag.
+func VerifState(b *Buffer) (buf []byte, validUntil int, mode int, markerOpen bool, capacity int) {
+	buf = append([]byte(nil), b.buf...)
+	return buf, b.validUntil, int(b.mode), b.markerOpen, cap(b.buf)
+}
